@@ -105,6 +105,34 @@ def run(rep, tier, seed):
                     rep.violation("C09/cancel-ignored", f"{where}; the caller cancels start_connection() after {cancel_at} s: it ended only after {elapsed / 1024:.1f} s ({out})", replay)
                 elif out not in ("C",) and not out.startswith("L."):
                     rep.violation("C09/raw-error", f"{where}; cancelled by the caller: ended with {out}", replay)
+    for timeout, dtimeout in ((3.0, 1.0), (1.0, 3.0), (2.0, 2.0), (30.0, 20.0)):
+        for answer in (False, True):
+            elapsed, out = ble_connect_silence_probe(timeout, dtimeout, answer)
+            want = round((timeout + (0.25 if answer else dtimeout)) * 1024)
+            replay = {"kind": "ble-connect-silence", "timeout": timeout, "disconnect_timeout": dtimeout, "answer_disconnect": answer}
+            rep.case(("ble-connect-silence", timeout, dtimeout, answer), True, sample={"probe": replay, "elapsed_units": elapsed, "outcome": out})
+            rep.bump("probe:ble-connect-silence")
+            where = (f"bluetooth_device_connect(timeout={timeout}, disconnect_timeout={dtimeout}), the device never reports the connection"
+                     + (" and confirms the clean-up disconnect 0.25 s after it was sent" if answer else " and never confirms the clean-up disconnect"))
+            if out in ("pending", "ok"):
+                rep.violation("C09/hang", f"{where}: {'still pending' if out == 'pending' else 'succeeded'} after {elapsed / 1024:.2f} s", replay)
+            elif not out.startswith("L."):
+                rep.violation("C09/raw-error", f"{where}: ended with {out}", replay)
+            elif elapsed != want:
+                rep.violation("C09/bound", f"{where}: ended after {elapsed / 1024:.3f} s, the documented bound gives {want / 1024:.3f} s", replay)
+    # when several checks of the connect exchange fail, the first one decides (hello before login)
+    from checks import c06 as _c06
+    for major, nk in ((1, "o"), (3, "x"), (3, "o"), (1, "l")):
+        st = _c06.mk_story(major, nk, 1, 1, 1, "HC", 1, "pw")
+        tr6 = _c06.run_plain(st)
+        out = _c06.outcome_of(tr6)
+        want = _c06.oracle(st["case"])
+        rep.case(("first-refusal", major, nk), True, sample={"first_refusal": st["case"], "outcome": out[:2]})
+        rep.bump("probe:first-refusal")
+        if out[0] != "err" or out[1] != want[1]:
+            rep.violation("C09/first-cause-masked", f"HelloResponse(major={major}, name={_c06.NAMES[nk]!r}) with expected name 'dev' AND ConnectResponse(invalid_password): "
+                          f"finish_connection ended {out[:2]}, the first failing check gives {want[1]}",
+                          {"kind": "first-refusal", "major": major, "name": nk})
     for noise in (True, False):
         for stage in STAGES:
             if not noise and stage in ("hello-frame", "handshake"):
@@ -190,6 +218,42 @@ def resolver_hang_probe(host, cancel_at):
     return simnet.run(go)
 
 
+def ble_connect_silence_probe(timeout, disconnect_timeout, answer_disconnect):
+    """bluetooth_device_connect() against a device that never reports the connection: it ends with a library time-out error after
+    timeout (+ disconnect_timeout when the clean-up disconnect is not confirmed either). Returns (elapsed units, outcome)."""
+    async def go(loop):
+        from aioesphomeapi import api_pb2 as pb
+        net = simnet.Net(loop)
+        with net.patched():
+            cli, tr = await simnet.connected_client(loop, net)
+            t0 = loop.time()
+            task = asyncio.ensure_future(cli.bluetooth_device_connect(77, lambda *a: None, timeout=timeout, disconnect_timeout=disconnect_timeout))
+            await simnet.drain(loop)
+            answered = False
+            for _ in range(400):
+                if task.done():
+                    break
+                await simnet.advance(loop, by=0.125)
+                if answer_disconnect and not answered and loop.time() - t0 >= timeout + 0.25:
+                    answered = True
+                    tr.feed(simnet.plain_msg(pb.BluetoothDeviceConnectionResponse(address=77, connected=False, mtu=0, error=0)))
+                    await simnet.drain(loop)
+            elapsed = loop.time() - t0
+            if not task.done():
+                task.cancel()
+                out = "pending"
+            elif task.cancelled():
+                out = "C"
+            elif task.exception() is None:
+                out = "ok"
+            else:
+                out = conntrace.exc_name(task.exception())
+            await cli.disconnect(force=True)
+            await simnet.drain(loop)
+        return round(elapsed * 1024), out
+    return simnet.run(go)
+
+
 def client_stories():
     from checks import c19
     from vlib.connstories import H, HELLO, CONNECT
@@ -256,6 +320,17 @@ def replay(path):
             if l != "silent":
                 print(l, "|", p, "|", ",".join(o))
         print(client_predicate(tr))
+        return 0
+    if d.get("kind") == "ble-connect-silence":
+        common.setup_impl_path()
+        print(ble_connect_silence_probe(d["timeout"], d["disconnect_timeout"], d["answer_disconnect"]))
+        return 0
+    if d.get("kind") == "first-refusal":
+        from checks import c06 as _c06
+        common.setup_impl_path()
+        connfamily.N_REG = connfamily.n_registered()
+        st = _c06.mk_story(d["major"], d["name"], 1, 1, 1, "HC", 1, "pw")
+        print(_c06.outcome_of(_c06.run_plain(st)), _c06.oracle(st["case"]))
         return 0
     if d.get("kind") == "resolver-hang":
         common.setup_impl_path()
